@@ -1,6 +1,6 @@
 (* The case interpreter of the correspondence check: one text line in, one canonical text line out.
    The Rust harness (`impldrv`) implements the same protocol on top of the real library. No proofs here. *)
-Require Import SD.Base SD.Text SD.Codes SD.Header SD.Name SD.RData SD.Packet SD.PktText SD.TextApi SD.Store SD.Pipeline SD.Owned SD.WfBool.
+Require Import SD.Base SD.Text SD.Codes SD.Header SD.Name SD.RData SD.Packet SD.PktText SD.TextApi SD.Store SD.Pipeline SD.Owned SD.WfBool SD.Lossy.
 From Coq Require Import String.
 Open Scope N_scope.
 
@@ -672,6 +672,38 @@ Definition run_eqhash (args : list (list byte)) : list byte :=
   | [] => s2b "BADCASE"
   end.
 
+(* SHOW L hex | SHOW C hex | SHOW N hex... | SHOW P hex: what Display writes for a label, a character-string, a name built from
+   labels, and for every question name and owner name of a parsed packet (hexadecimal of the UTF-8 text) *)
+Fixpoint all_some {A} (l : list (option A)) : option (list A) :=
+  match l with
+  | [] => Some []
+  | Some a :: r => option_map (cons a) (all_some r)
+  | None :: _ => None
+  end.
+Definition run_show (args : list (list byte)) : list byte :=
+  match args with
+  | k :: rest =>
+    if tok_eqb k "L" then
+      match map hex_to_bytes rest with [Some d] => bytes_to_hex (display_bytes d) | _ => s2b "BADCASE" end
+    else if tok_eqb k "C" then
+      match map hex_to_bytes rest with
+      | [Some d] => match cstr_new d with Ok d' => bytes_to_hex (display_bytes d') | _ => s2b "ERR" end
+      | _ => s2b "BADCASE" end
+    else if tok_eqb k "N" then
+      match all_some (map hex_to_bytes rest) with Some ls => bytes_to_hex (display_name ls) | None => s2b "BADCASE" end
+    else if tok_eqb k "P" then
+      match map hex_to_bytes rest with
+      | [Some d] =>
+        match parse_packet d with
+        | Ok p => unwords (s2b "OK" :: map (fun n => bytes_to_hex (display_name n))
+                                           (map qname (qs p) ++ map rname (ans p ++ nss p ++ adds p)))
+        | Err e => s2b "ERR" | Panic _ => s2b "PANIC" | OutOfFuel => s2b "HANG"
+        end
+      | _ => s2b "BADCASE" end
+    else s2b "BADCASE"
+  | [] => s2b "BADCASE"
+  end.
+
 Definition run_line (line : list byte) : list byte :=
   match tokens line with
   | [] => []
@@ -708,5 +740,6 @@ Definition run_line (line : list byte) : list byte :=
     else if tok_eqb cmd "BUILDHDR" then run_buildhdr args
     else if tok_eqb cmd "HDRMOD" then run_hdrmod args
     else if tok_eqb cmd "PEEKF" then run_peekf args
+    else if tok_eqb cmd "SHOW" then run_show args
     else s2b "BADCASE"
   end.
